@@ -1,4 +1,5 @@
 import Ccp.Proofs.IPText
+import Ccp.Proofs.IPSpell
 import Ccp.Spec.IP
 /-!
 # C11 — IPv4/IPv6 objects agree with the standard library on every derived value
@@ -367,22 +368,41 @@ example : V6.fromStr " ::1 64 ".toList = .ok (mk6 1 64) := by rfl
 example : V6.fromStr "::/0".toList = .ok (mk6 0 0) := by rfl
 example : V6.fromStr "2001:DB8::8:800:200C:417A/64".toList = .ok (mk6 0x20010DB80000000000080800200C417A 64) := by rfl
 
-/-- **IPv6 rejects — partial** (this is the statement F16 violated before the regex was anchored): whenever
-the text constructor returns an object, then after `strip()` and the blank-to-slash rewrite the
-*whole* text (at most 49 characters) is `addr` (then `len = 128`) or `addr<sep>digits` where `addr` is
-exactly the text the stdlib parsed into the stored address and `digits` are ASCII digits whose value
-is the stored prefix length ≤ 128; the object is the object of `(ip, len)`.
-Full statement (NOT proved): additionally `addr` is one of the RFC 4291 spellings of `o.ip`
-(a property of the stdlib parser model `stdV6Int` alone, measured against the real `ipaddress`). -/
-theorem v6_rejects_partial (input : Str) (o : Obj) (h : V6.fromStr input = .ok o) :
-    o = mk6 o.ip o.len ∧ o.len ≤ 128 ∧
+/-- **The stdlib IPv6 parser model is sound for RFC 4291 §2.2**: a text it accepts is a spelling of the
+value it returns (eight groups of 1–4 hex digits, or `hi::lo` with at most seven groups written and the
+missing ones zero, the last two groups optionally as a canonical dotted quad), and that value is a
+128-bit address.  `IP.IsV6Spelling` is the short readable grammar in `Ccp.Spec.IP`. -/
+theorem stdlib_v6_parser_sound (addr : Str) (n : Nat) (h : stdV6Addr addr = .ok n) :
+    IP.IsV6Spelling addr n ∧ n < 2 ^ 128 := by
+  have hi : stdV6Int addr = some n := by
+    unfold stdV6Addr at h
+    split at h
+    · cases h
+    · split at h
+      · cases h
+      · split at h
+        · rename_i v hv; cases h; exact hv
+        · cases h
+  have hs := stdV6Int_sound addr n hi
+  exact ⟨hs, spelling_lt addr n hs⟩
+
+/-- **IPv6 rejects** (no silent truncation or coercion; this is the statement F16 violated before the
+regex was anchored): whenever the text constructor returns an object, then after `strip()` and the
+blank-to-slash rewrite the *whole* text (at most 49 characters) is `addr` (then `len = 128`) or
+`addr<sep>digits`, where `addr` is an RFC 4291 spelling of exactly the stored address and `digits`
+are ASCII digits whose value is the stored prefix length ≤ 128; the object is the object of
+`(ip, len)`.  Every other text raises. -/
+theorem v6_rejects (input : Str) (o : Obj) (h : V6.fromStr input = .ok o) :
+    o = mk6 o.ip o.len ∧ o.len ≤ 128 ∧ o.ip < 2 ^ 128 ∧
     ∃ joined addr, joined.length ≤ 49 ∧
       (splitWs (strip input) = [joined] ∨ ∃ a b, splitWs (strip input) = [a, b] ∧ joined = a ++ '/' :: b) ∧
-      stdV6Addr addr = .ok o.ip ∧
+      IP.IsV6Spelling addr o.ip ∧
       ((strip joined = addr ∧ o.len = 128) ∨
        ∃ sep m, strip joined = addr ++ sep :: m ∧ (sep = '/' ∨ isSpace sep = true) ∧ m ≠ [] ∧
-         (∀ c ∈ m, isDigit c = true) ∧ ofDigits m = some o.len) :=
-  V6.fromStr_inv input o h
+         (∀ c ∈ m, isDigit c = true) ∧ ofDigits m = some o.len) := by
+  obtain ⟨h1, h2, joined, addr, h3, h4, h5, h6⟩ := V6.fromStr_inv input o h
+  have hs := stdlib_v6_parser_sound addr o.ip h5
+  exact ⟨h1, h2, hs.2, joined, addr, h3, h4, hs.1, h6⟩
 
 -- non-vacuity: the F16 witnesses and their neighbours are refused by the model
 example : V6.fromStr "::1/64junk".toList = .error .addressValueError := by rfl
